@@ -1258,6 +1258,276 @@ def hostile_client_cases(quick):
 EXECUTORS['C'] = exec_hostile_client
 
 # =====================================================================================================
+# pairing D: ONE client-side blob raced from two peers - the real server and a scripted liar
+# pairing E: the same race driven by the real BlobDownloader.download_blob with a two-peer queue
+# =====================================================================================================
+
+LHOST, LPORT = '5.6.7.8', 4444
+LIAR_TO = 5.0             # blob_download_timeout used towards the liar in pairing D (so that a timer deviation
+                          # can end the liar's request while the honest transfer is still within its own timeout)
+RACE_ENTRIES = ['corrupt-first', 'corrupt-middle', 'corrupt-last', 'hash-other', 'close-mid-body', 'abort-mid-body',
+                'short-by-one', 'excess-byte', 'error-response', 'silence', 'len-plus1', 'len-minus1']
+
+
+def pump_race(w, until, chunk, chooser, on_step, t_horizon, timer_dev=True):
+    """Like World.pump, but the order in which the two connections' bytes reach the client is a choice:
+    events travelling towards a server (CONNECT, request bytes, FINs) are taken in canonical order without
+    a choice; when only client-bound events are pending, every connection's oldest event is an alternative
+    of cost 0 (all interleavings are enumerated) and firing the earliest timer instead costs 1."""
+    loop, obs = w.loop, w.obs
+    n = 0
+    while True:
+        loop.settle()
+        on_step()
+        if until():
+            return 'done'
+        evs = loop.tcp_enabled()
+        nt = loop.next_timer()
+        if nt is not None and nt._when > t_horizon:
+            nt = None
+        up = [e for e in evs if e.kind == 'CONNECT' or e.side == 's']
+        if up:
+            ev = up[0]
+        elif evs:
+            firsts, seen = [], set()
+            for e in sorted(evs, key=lambda e: (e.conn, RANK_KIND[e.kind], e.seq)):
+                if e.conn not in seen:
+                    seen.add(e.conn)
+                    firsts.append(e)
+            opts = firsts + (['TIMER'] if (nt is not None and timer_dev) else [])
+            pick = 0
+            if len(opts) > 1 and chooser is not None:
+                costs = tuple([0] * len(firsts) + ([1] if len(opts) > len(firsts) else []))
+                pick = chooser.choose(len(opts), costs, '|'.join(o if o == 'TIMER' else o.label for o in opts))
+            ev = opts[pick]
+            if ev == 'TIMER':
+                loop.fire_timer()
+                obs.timer_devs += 1
+                obs.log.append(f'TIMER-FIRST@{loop.time():.3f}')
+                obs.transitions += 1
+                continue
+        elif nt is not None:
+            loop.fire_timer()
+            obs.log.append(f'TIMER@{loop.time():.3f}')
+            obs.transitions += 1
+            continue
+        else:
+            return 'quiet' if loop.next_timer() is None else 'horizon'
+        size = chunk(ev) if ev.kind == 'SEG' else None
+        got = loop.tcp_fire(ev, size)
+        obs.log.append(f'{ev.label}:{got}' if ev.kind == 'SEG' else ev.label)
+        obs.transitions += 1
+        n += 1
+        if n > 100000:
+            return 'steps'
+
+
+RANK_KIND = {'CONNECT': 0, 'SEG': 0, 'EOF': 1, 'RESET': 2}
+
+
+class RaceWorld:
+    """Common set-up of pairings D and E: real server holding the blob at HOST:PORT, scripted liar at
+    LHOST:LPORT, one client manager; coarse cut alphabet header / half body / rest on both connections."""
+
+    def __init__(self, base, obs, case):
+        self.w = w = World(base, obs)
+        loop = w.loop
+        self.sbm, self.cbm = w.manager(w.sd), w.manager(w.cd)
+        self.blob = make_blob('plain20', 0)
+        self.h = w.hold(self.sbm, self.blob)
+        w.listen_real(self.sbm)
+        oblob = make_blob('plain20', 7)
+        self.entry = entry = hs_catalogue(self.h, self.blob, sha(oblob), oblob)[case['entry']]
+        self.liars = []
+
+        def on_request(s, idx, req):
+            s.perform(entry['resp'])
+
+        def liar():
+            self.liars.append(Scripted(loop, None, on_request))
+            return self.liars[-1]
+        loop.run(loop.create_server(liar, LHOST, LPORT))
+        self.honest_cut = {}
+
+    def chunk(self, ev):
+        if ev.side != 'c':
+            return None
+        loop = self.w.loop
+        conn = loop.tcp_conns[ev.conn - 1]
+        pos = conn.offset['c']
+        if conn.addr == (HOST, PORT):
+            cut = self.honest_cut.setdefault(conn.n, Cutter(['he', 'mid'], 's2c'))
+            return cut.size(ev, conn)
+        hl, tot = self.entry['hl'], self.entry['tot']
+        for c in sorted({hl, hl + (tot - hl) // 2}):
+            if pos < c < tot:
+                return max(1, min(c - pos, ev.avail))
+        return None
+
+    def conns(self, addr):
+        return [c for c in self.w.loop.tcp_conns if c.addr == addr]
+
+
+def exec_race(base, case, chooser=None):
+    """case = {'entry': liar's misbehaviour, 'known': bool, 'order': 'hl'|'lh' (which request starts first)}"""
+    from lbry.blob_exchange.client import request_blob
+    obs = Obs()
+    rw = RaceWorld(base, obs, case)
+    w = rw.w
+    try:
+        loop = w.loop
+        h, blob, entry = rw.h, rw.blob, rw.entry
+        cb = rw.cbm.get_blob(h, len(blob) if case['known'] else None)
+        w.state_prefix = ('D', case['entry'], case['known'], case['order'])
+        recs = {}
+
+        async def one(tag, host, port, timeout):
+            rec = recs[tag] = {'t0': loop.time(), 'outcome': 'pending', 'n': None}
+            try:
+                nb, proto = await request_blob(loop, cb, host, port, CONNECT_TO, timeout)
+                rec.update(outcome='ok' if proto is not None else 'dropped', n=nb, proto=proto)
+            except asyncio.CancelledError:
+                rec.update(outcome='cancelled')
+            except Exception as e:   # noqa
+                rec.update(outcome='exc:' + type(e).__name__)
+            rec.update(t1=loop.time(), verified_then=cb.get_is_verified())
+
+        spec = {'h': ('h', HOST, PORT, DL_TO), 'l': ('l', LHOST, LPORT, LIAR_TO)}
+        tasks = {tag: loop.create_task(one(*spec[tag])) for tag in case['order']}
+        genuine = {h: blob}
+        st = {}
+
+        def on_step():
+            obs.states.append(w.snapshot())
+            w.check_client_dir(w.cd, genuine, 'race')
+            if 'l' in recs and recs['l']['outcome'] != 'pending' and recs.get('h', {}).get('outcome') == 'pending' \
+                    and not cb.get_is_verified():
+                hc = rw.conns((HOST, PORT))
+                if hc and 0 < hc[0].offset['c'] < len(hc[0].stream('s')):
+                    obs.witness.add('liar_finished_while_honest_transfer_in_flight')
+
+        end = pump_race(w, lambda: all(t.done() for t in tasks.values()), rw.chunk, chooser, on_step, t_horizon=200.0)
+        obs.log.append(f'pump:{end} t={loop.time():.3f}')
+        sig = {'entry': case['entry'], 'known_len': case['known']}
+        for tag in 'hl':
+            rec = recs.get(tag, {'outcome': 'never-started', 't0': 0.0})
+            obs.log.append(f"{'honest' if tag == 'h' else 'liar'}: {rec['outcome']} n={rec.get('n')} "
+                           f"t={rec.get('t1', loop.time()) - rec['t0']:.3f}")
+            to = DL_TO if tag == 'h' else LIAR_TO
+            if not tasks[tag].done():
+                obs.viol.append((dict(sig, kind='raced-request-never-returns', who=tag),
+                                 f"request_blob towards the {'honest peer' if tag == 'h' else 'liar'} has not returned after "
+                                 f"{loop.time():.0f} virtual seconds ({case})"))
+                tasks[tag].cancel()
+            elif rec['t1'] - rec['t0'] > CONNECT_TO + 2 * to + EPS:
+                obs.viol.append((dict(sig, kind='raced-request-late', who=tag),
+                                 f"request_blob ({tag}) took {rec['t1'] - rec['t0']:.3f} virtual seconds, bound {CONNECT_TO + 2 * to:.0f}"))
+        loop.settle()
+        data = file_state(w.cd, h)
+        good = cb.get_is_verified() and data == blob
+        obs.log.append(f"blob verified={cb.get_is_verified()} file={'identical' if data == blob else ('absent' if data is None else 'DIFFERENT')}")
+        hrec = recs.get('h', {})
+        honest_timed_out = loop.time() >= DL_TO - EPS and hrec.get('outcome') != 'ok'
+        if not good:
+            if honest_timed_out:
+                obs.tallies.append('race_honest_transfer_hit_its_own_timeout')
+            elif entry['relies_on_length'] and not case['known']:
+                # the liar's announced length sticks to the shared blob object and the honest header is then
+                # refused ("unexpected length") - reported, not judged (outside the statement's catalogue of effects)
+                obs.tallies.append('interpretation_only:honest_peer_refused_after_liar_announced_wrong_length_first')
+            else:
+                errs = [f"{e['message']} {e['exception']!r}" for e in loop.tcp_errors][:1]
+                obs.viol.append((dict(sig, kind='honest-copy-did-not-complete-beside-liar', honest_outcome=hrec.get('outcome')),
+                                 f"blob raced from an honest server and a liar ({case['entry']}): honest request ended "
+                                 f"{hrec.get('outcome')}, liar's ended {recs.get('l', {}).get('outcome')}, verified="
+                                 f"{cb.get_is_verified()}, file={'absent' if data is None else 'present'} {errs}"))
+        lrec = recs.get('l', {})
+        if lrec.get('outcome') not in ('ok', 'pending', None):
+            open_l = [c.n for c in rw.conns((LHOST, LPORT)) if not c.client.is_closing()]
+            if open_l:
+                obs.viol.append((dict(sig, kind='liar-connection-left-open'),
+                                 f"request towards the liar ended {lrec['outcome']} but its transport is still open"))
+        for rec in recs.values():
+            if rec.get('proto') is not None:
+                rec['proto'].close()
+        w.pump(None, timers=False, on_step=on_step)
+        w.check_client_dir(w.cd, genuine, 'race', final=True)
+        for conn in rw.conns((HOST, PORT)):
+            serves, problem = check_server_stream(conn.stream('s'), w.held)
+            if problem:
+                obs.viol.append(({'kind': 'server-wire', 'pairing': 'race', 'problem': problem.split(' at offset')[0][:60]}, problem))
+        return obs
+    finally:
+        w.close()
+
+
+def exec_downloader(base, case, chooser=None):
+    """case = {'entry', 'queue': 'lh'|'hl'}: the real BlobDownloader with a two-peer queue."""
+    from lbry.blob_exchange.downloader import BlobDownloader
+    from lbry.dht.peer import make_kademlia_peer
+    obs = Obs()
+    rw = RaceWorld(base, obs, case)
+    w = rw.w
+    try:
+        loop = w.loop
+        h, blob = rw.h, rw.blob
+        make_kademlia_peer.cache_clear()
+        peers = {'h': make_kademlia_peer(b'\x01' * 48, HOST, udp_port=4444, tcp_port=PORT),
+                 'l': make_kademlia_peer(b'\x02' * 48, LHOST, udp_port=4444, tcp_port=LPORT)}
+        w.conf.peer_connect_timeout = CONNECT_TO
+        w.conf.blob_download_timeout = DL_TO
+        q = asyncio.Queue()
+        q.put_nowait([peers[t] for t in case['queue']])
+        dl = BlobDownloader(loop, w.conf, rw.cbm, q)
+        w.state_prefix = ('E', case['entry'], case['queue'])
+        genuine = {h: blob}
+        task = loop.create_task(dl.download_blob(h))
+
+        def on_step():
+            obs.states.append(w.snapshot())
+            w.check_client_dir(w.cd, genuine, 'downloader')
+
+        # the downloader polls on 1 s timers; they are not deviations here (timer_dev off: interleavings only)
+        end = pump_race(w, task.done, rw.chunk, chooser, on_step, t_horizon=300.0, timer_dev=False)
+        obs.log.append(f'pump:{end} t={loop.time():.3f}')
+        sig = {'entry': case['entry'], 'queue': case['queue']}
+        got = None
+        if task.done() and not task.cancelled() and task.exception() is None:
+            got = task.result()
+        data = file_state(w.cd, h)
+        obs.log.append(f"download_blob: {'returned' if got is not None else 'did not return'} verified="
+                       f"{bool(got and got.get_is_verified())} file={'identical' if data == blob else 'absent/different'}")
+        if got is None or not got.get_is_verified() or data != blob:
+            obs.viol.append((dict(sig, kind='downloader-did-not-get-blob-beside-liar'),
+                             f"BlobDownloader.download_blob with peers {case['queue']} (l = liar '{case['entry']}', h = honest "
+                             f"server): {end} at t={loop.time():.1f}, task={'done' if task.done() else 'pending'}, "
+                             f"file={'absent' if data is None else 'present'}"))
+        elif loop.time() > CONNECT_TO + 2 * DL_TO + EPS:
+            obs.viol.append((dict(sig, kind='downloader-late'), f'download_blob needed {loop.time():.1f} virtual seconds'))
+        if not task.done():
+            task.cancel()
+        dl.close()
+        loop.settle()
+        w.pump(None, timers=False, on_step=on_step)
+        w.check_client_dir(w.cd, genuine, 'downloader', final=True)
+        make_kademlia_peer.cache_clear()
+        return obs
+    finally:
+        w.close()
+
+
+def race_cases(quick):
+    return [{'entry': e, 'known': k, 'order': o} for e in RACE_ENTRIES for k in (False, True) for o in ('hl', 'lh')]
+
+
+def downloader_cases(quick):
+    return [{'entry': e, 'queue': o} for e in RACE_ENTRIES for o in ('lh', 'hl')]
+
+
+EXECUTORS['D'] = exec_race
+EXECUTORS['E'] = exec_downloader
+
+# =====================================================================================================
 # work items, run, replay
 # =====================================================================================================
 
